@@ -40,7 +40,9 @@ class Scenario:
     canary: str | None = None  # name of an obligation that MUST be refuted (reachability twin)
     expect_outcomes: tuple = ()  # outcome prefixes that must each be seen on at least one path
     witness_cap: int = 24
-    query_timeout_ms: int = 20000
+    query_timeout_ms: int = 10000
+    time_budget_s: float = 240.0
+    round_mode: str = "exact"  # "uf": roundings are uninterpreted functions with bracketing axioms (over-approximation)
 
 
 # --------------------------------------------------------------------------------------------- context
@@ -170,6 +172,38 @@ class Ctx:
             self.failed.append(name)
         return ok
 
+    def check_all(self, items):
+        """items: list of (name, cond). One solver query for the conjunction; individual queries only if it fails."""
+        if not self.sym:
+            return all([self.check(n, c) for n, c in items])
+        from . import symx
+        import z3
+
+        pend = []
+        for n, c in items:
+            if isinstance(c, bool) and c:
+                self.obligations.append({"name": n, "status": "valid"})
+            elif isinstance(c, symx.SymBool):
+                e = z3.simplify(c.e)
+                if z3.is_true(e):
+                    self.obligations.append({"name": n, "status": "valid"})
+                else:
+                    pend.append((n, symx.SymBool(e)))
+            else:
+                pend.append((n, c))
+        if not pend:
+            return True
+        if all(isinstance(c, symx.SymBool) for _, c in pend) and len(pend) > 1:
+            status, _ = self.ex.prove(symx.SymBool(z3.And(*[c.e for _, c in pend])))
+            if status == "valid":
+                for n, _ in pend:
+                    self.obligations.append({"name": n, "status": "valid"})
+                return True
+        ok = True
+        for n, c in pend:
+            ok &= self.check(n, c)
+        return ok
+
     def observe(self, name, value):
         self.observations.append((name, value))
 
@@ -196,6 +230,26 @@ class Ctx:
         """|a-b| <= abs_ + rel*max(|a|,|b|) ; defaults: exact in sym mode is NOT assumed -- give tolerances"""
         from . import symx
 
+        if self.sym and isinstance(a, symx.Sym) and isinstance(b, symx.Sym):
+            import z3
+
+            ea, eb = a.e, b.e
+            if ea.sort() != eb.sort():
+                ea, eb = symx._real(ea), symx._real(eb)
+            if z3.is_true(z3.simplify(ea == eb)):
+                return True
+        if not symx.is_sym(a) and not symx.is_sym(b):
+            try:
+                if a == b:
+                    return True
+                if not (Decimal(a).is_finite() and Decimal(b).is_finite()):
+                    return False
+            except Exception:
+                pass
+        elif not symx.is_sym(a) or not symx.is_sym(b):
+            c = a if not symx.is_sym(a) else b
+            if isinstance(c, (Decimal, float)) and not Decimal(c).is_finite():
+                return False  # a finite symbolic value never equals inf/nan
         d = symx.sabs(a - b)
         bound = 0
         if abs_ is not None:
@@ -231,7 +285,9 @@ def run_symbolic(sc: Scenario, tier: str):
     from . import symx, shadow
 
     shadow.install(sc.shadows)
+    symx.ROUND_MODE = sc.round_mode
     ex = symx.Explorer(max_paths=sc.max_paths, query_timeout_ms=sc.query_timeout_ms)
+    ex.deadline = time.time() + sc.time_budget_s * (1 if tier == "quick" else 4)
     symx.CUR = ex
     paths = []
     functions = set()
